@@ -16,7 +16,10 @@ RULE = ("(round) catalogue of cache sizes around the 128-entry block (0,1,2,127.
         "(entries of 40, 60, 70, 100, 200, 300 KiB, alone and among ordinary ones before and after; the oracle demands that every "
         "live entry reloads without error whatever the block constant is), the 0-entries cache through the real callers with an "
         "earlier dump on disk (dump_file: Close -> [restart] -> GET /flush -> Close -> restart must load nothing; same instance or "
-        "restarted, extra empty restarts, items stored after the flush), via the direct calls, "
+        "restarted, extra empty restarts, items stored after the flush), the lazy_cache_ttl setting of the dumping and of the "
+        "loading cache as a dimension (off/on, on/on, on/off, different values; items shaped like saveRespToCache's NXDOMAIN 30 s, "
+        "SERVFAIL 5 s and empty-answer entries whose cache expiry is NOT stored + lazy ttl, lazy-style positive entries, plain "
+        "ones): every entry must come back with the dumped cache expiry, message expiry and stored time, via the direct calls, "
         "the /dump + /load_dump handlers and Args.DumpFile (Close -> file -> NewCache), then seeded random caches of 0-300 "
         "items with random ages, expiries and whole-second / last-nanosecond boundaries; "
         "(load) hand-described plaintexts (valid, empty, expired, undecodable blocks, bad DNS messages, announced lengths at "
@@ -36,6 +39,7 @@ ASSUMPTIONS = [
     "klauspost gzip: a complete file decompresses to its header name and plaintext and ends with io.EOF (premise Hgz); a strict prefix either fails in NewReader or yields a prefix of the plaintext followed by an error that is not io.EOF (premise Hcut; checked on every cut case: pfx_ok and the observed end status)",
     "io.ReadFull as modelled by Model.Dump.read_block: io.EOF only when nothing was read and the stream ended cleanly",
     "every dumped entry alone fits a block: proto.Size(entry)+16 <= dumpMaximumBlockLength = 1 MiB (premise Hfit). writeDump only splits a non-empty block, so a single larger entry is still written as a block the loader refuses. An entry is the message packed WITHOUT name compression + key + times, so it can exceed the 64 KiB wire size (230-record TXT RRset: 62 KB -> 73.5 KB; round trips with entries up to 300 KiB are in the run); only a pathological answer (thousands of records under a ~255-byte owner name) reaches 1 MiB",
+    "the loader's configuration (lazy_cache_ttl) is not an input of the model's readDump: the three times are taken from the dump alone (c19_reload_faithful: reload_item keeps cache expiry, message expiry and stored time cut to the second); load cases and round trips run the loading cache with lazy_cache_ttl 0 / 30 / 300 / 3600 / 86400 and compare all three times per entry",
     "one clock reading per dump and per load (the code calls time.Now() per entry in Store; outcomes differ only for entries expiring while the load runs); the target cache has room for all entries (eviction is C11's subject); stored <= now and ages below 2^32 s (uint32 conversion, float64 seconds exact below about 4e6 s)",
     "absence of panics, hangs and unbounded allocation inside gzip / protobuf / miekg on arbitrary bytes is observed by the fuzz cases (worker process, watchdog, runtime.MemStats), not proved; the model proves termination and the 1 MiB bound of the block reader's own allocations",
 ]
